@@ -4,7 +4,7 @@ worktree at the seed's base commit, the property's quick check without and with 
 is detected when the patch adds at least one report. Prints the seeds that are no longer detected. With --update the detection result is written back to meta.json."""
 import sys, subprocess, glob, os, re, json
 def sh(*a, **k): return subprocess.run(a, capture_output=True, text=True, **k)
-wt = "/tmp/seed/RS"
+wt = os.environ.get("RS_WT", "/tmp/seed/RS")
 if not os.path.isdir(wt):
     sh("git", "-C", "/repo", "worktree", "add", "-q", "--detach", wt, "HEAD")
 update = "--update" in sys.argv
